@@ -84,4 +84,11 @@ CONFIG = {
         "quick": {"parts": [part("TestC20Codec", 4, 5000), part("TestC20RPC", 12, 30)]},
         "thorough": {"parts": [part("TestC20Codec", 16, 150000, timeout=3000), part("TestC20RPC", 16, 500, timeout=3000)]},
     },
+    "C16": {
+        "level": "exploration",
+        "rule": "(a) SQL: valid statements (generated from the query grammar over a two-table fixture, plus hand-written statements using every function family) mutated by 0-4 token-level edits (delete, duplicate, swap, replace/insert with keywords of other statement types, operators, literals, function names, unknown identifiers), argument-level edits (drop / duplicate an argument, empty an argument list) and truncation; each is submitted to DB.Query (sql.Parse + planner.Plan) of a standalone database and of a passthrough leader (cluster planning); a panic is a violation, an error or a plan is not. (b) payloads: histories of valid points on fresh keys interleaved with ill-typed Insert payloads (31 value kinds incl. nil, NaN, +-Inf, empty arrays, 70 kB strings, maps, structs, pointers; reserved and empty names) and InsertRaw with arbitrary bytes, on a standalone database and through a 2-partition cluster; no call may panic, ingestion must catch up (a stall must reproduce twice on fresh databases to count), and every valid point must be stored with its value. Thorough adds a native coverage-guided fuzzing campaign of (a). Non-trivial: (a) the statement differs from every seed statement; (b) the history contains a hostile payload.",
+        "assumptions": ["statements with an unterminated or empty back-quoted identifier are excluded (listed finding: the dependency's tokenizer never returns)", "hostile payload timestamps stay inside the retention window (a far-future timestamp is a legal point that advances the virtual clock)", "execution-time behaviour of accepted queries is outside C16 (parsing/planning only)"],
+        "quick": {"parts": [part("TestC16SQL", 6, 12000), part("TestC16Payload", 10, 40)]},
+        "thorough": {"parts": [part("TestC16SQL", 12, 250000, timeout=3000), part("TestC16Payload", 16, 600, timeout=3000), part("FuzzC16SQL", 1, 0, fuzz="300s", timeout=900)]},
+    },
 }
